@@ -7,7 +7,7 @@ CONSTANTS
   PtrLimit = 16384
   ImplBug = "none"
   Count = 1
-  Stride = 7919
+  Stride = 41868361
   Offset = 1
   NS1 = 1500
   NMany = 40
